@@ -224,16 +224,12 @@ pub fn one_run(ctx: &Ctx, idx: u64, out: &mut RunOut) {
     // same shape stream as C01
     let mut rng = Rng::new(ctx.seed, "C01", idx);
     foldhash::sim::set_seed(mix(ctx.seed, idx));
-    let kb = idx % 2 == 0;
-    let spec = if kb { draw_shape::<crate::rec::kb4::U>(&mut rng, ctx.tier, None) } else { draw_shape::<crate::rec::bb4::U>(&mut rng, ctx.tier, None) };
+    let uni = crate::rec::universe_of(idx);
+    let spec = crate::with_rec_universe!(uni, U, draw_shape::<U>(&mut rng, ctx.tier, None));
     if out.samples.is_empty() {
         out.samples.push(json!({"idx": idx, "shape": {"universe": spec.universe, "kind": spec.kind, "fri": spec.fri, "log_n": spec.log_n}}));
     }
-    if kb {
-        run_shape::<crate::rec::kb4::U>(ctx.seed, idx, &spec, ctx.tier, None, out);
-    } else {
-        run_shape::<crate::rec::bb4::U>(ctx.seed, idx, &spec, ctx.tier, None, out);
-    }
+    crate::with_rec_universe!(uni, U, run_shape::<U>(ctx.seed, idx, &spec, ctx.tier, None, out));
 }
 
 pub fn replay(ctx: &Ctx, body: &Value) -> i32 {
@@ -254,11 +250,7 @@ pub fn replay(ctx: &Ctx, body: &Value) -> i32 {
     };
     foldhash::sim::set_seed(mix(seed, idx));
     let mut out = RunOut::default();
-    if spec.universe == "U-BB4" {
-        run_shape::<crate::rec::bb4::U>(seed, idx, &spec, Tier::Thorough, only, &mut out);
-    } else {
-        run_shape::<crate::rec::kb4::U>(seed, idx, &spec, Tier::Thorough, only, &mut out);
-    }
+    crate::with_rec_universe!(spec.universe.as_str(), U, run_shape::<U>(seed, idx, &spec, Tier::Thorough, only, &mut out));
     let key = body["key"].as_str().unwrap_or("");
     // with only_pos the class cannot be recomputed: match on the key prefix
     let prefix: String = key.split(':').take(3).collect::<Vec<_>>().join(":");
